@@ -351,3 +351,49 @@ Example same_pass_head_first :
     [OConn false 8; OAdv 0 false; OInit 0 true false; OConn false 8; OAdv 1 false;
      ODrop 0 true; OInit 1 false false]) = [(-1)%Z; (-1)%Z].
 Proof. vm_compute. repeat split. Qed.
+
+(* ---------------------------------------------------------------- builds without thread support *)
+Lemma other_normal_nt_weaker : forall stale l from i,
+  other_normal_nt stale from i l = false -> other_normal from i l = false.
+Proof.
+  induction l as [|c t IH]; intros from i H; cbn in *; [reflexivity|].
+  apply orb_false_iff in H. destruct H as [H1 H2]. apply orb_false_iff. split; [|apply IH; exact H2].
+  unfold live_normal. destruct (negb (Nat.eqb from i)); cbn in *; [|reflexivity].
+  destruct (k_open c); cbn in *; [exact H1|reflexivity].
+Qed.
+
+(* what still holds when closed, unreaped RFB_NORMAL clients are counted: the decision is the one of
+   the threaded build, or - only with dontDisconnect - the newcomer is refused once more than
+   necessary and nobody else is touched.  Never an additional connected client. *)
+Lemma nothread_at_most_extra_refusal : forall stale fl l i shared,
+  client_init_nt stale fl l i shared = client_init fl l i shared \/
+  (f_dontdisc fl = true /\
+   client_init_nt stale fl l i shared = update (update l i (fun c => set_phase c PNormal)) i close).
+Proof.
+  intros stale fl l i shared. unfold client_init_nt, client_init.
+  destruct (nth_error l i) as [c|]; [|left; reflexivity].
+  destruct (k_open c && match k_phase c with PInit => true | _ => false end); [|left; reflexivity].
+  destruct (exclusive fl (k_rev c) shared); [|left; reflexivity].
+  destruct (f_dontdisc fl); [|left; reflexivity].
+  destruct (other_normal_nt stale 0 i (update l i (fun c0 => set_phase c0 PNormal))) eqn:E.
+  - right. split; reflexivity.
+  - rewrite (other_normal_nt_weaker _ _ _ _ E). left. reflexivity.
+Qed.
+
+Lemma nothread_nevershared : forall stale fl l i shared, f_never fl = true ->
+  count_inbound_normal l <= 1 -> count_inbound_normal (client_init_nt stale fl l i shared) <= 1.
+Proof.
+  intros stale fl l i shared Hn Hc.
+  destruct (nothread_at_most_extra_refusal stale fl l i shared) as [->|[_ ->]].
+  - apply client_init_count; assumption.
+  - eapply Nat.le_trans; [|exact Hc].
+    assert (E : update (update l i (fun c => set_phase c PNormal)) i close = update l i (fun c => close (set_phase c PNormal))).
+    { clear. revert i. induction l as [|a t IH]; intros [|i]; cbn; auto. f_equal. apply IH. }
+    rewrite E. apply update_count. intros x Hx. cbn in Hx. discriminate.
+Qed.
+
+Example nothread_nonvacuous :
+  let l := [mkClient false PNormal false false 8 None; mkClient false PInit true false 8 None] in
+  map obs_code (client_init_nt (fun j => Nat.eqb j 0) (mkFlags false false true) l 1 false) = [(-1)%Z; (-1)%Z] /\
+  map obs_code (client_init (mkFlags false false true) l 1 false) = [(-1)%Z; 4%Z].
+Proof. vm_compute. split; reflexivity. Qed.
